@@ -6,7 +6,7 @@
    MTU-bounded loop of Cluster.v.  All statements are for ALL copies, watermarks (including
    watermark above max version), keys, statuses and truncation points. *)
 From ChitchatModel Require Import Base SMap Ids Bytes Params NodeState Stream DeltaWire Message Cluster
-  FD Chitchat NodeState_lemmas Agreement Inv DeltaRefine Compute_lemmas Prefix_lemmas.
+  FD Chitchat Monitors NodeState_lemmas Agreement Inv DeltaRefine Compute_lemmas Prefix_lemmas Monitors_sound.
 
 (* never refused as inapplicable or from the future; reset exactly when both the receiver's max
    version and watermark lie below the sender's watermark, and then from version 0; the only
@@ -71,3 +71,12 @@ Example C14_nonvacuous :
   exists d, mk_node_delta (mkId [x6e] 0 (V4 1 1)) s (c_gc r) (c_max r) 1 true = Some d /\
             check_delta_status r d = ApplyAfterReset /\ d_from d = 0 /\ length (d_kvs d) = 1%nat.
 Proof. eexists. split; [vm_compute; reflexivity|]. vm_compute. repeat split. Qed.
+
+(* the sender-side monitor evaluated on the implementation's replies (c14_delta_ok: every node delta
+   starts from 0 iff the peer's advertised watermark and max version are both below the sender's
+   watermark, else from the peer's advertised max version) is satisfied by every delta the model
+   computes: it cannot raise an alarm on an implementation that agrees with the model *)
+Theorem C14_computed_deltas_pass_the_monitor : forall cs dg sched mtu x,
+  cluster_inv cs -> delta_shape cs dg sched mtu x -> c14_delta_ok dg (cs_nodes cs) x = true.
+Proof. exact computed_delta_passes_c14. Qed.
+Print Assumptions C14_computed_deltas_pass_the_monitor.
